@@ -3097,8 +3097,10 @@ impl Server {
         
         let seconds = match &parts[2] {
             RespFrame::BulkString(Some(bytes)) => {
-                match String::from_utf8_lossy(bytes).parse::<u64>() {
-                    Ok(n) => n,
+                // the time is a signed 64-bit integer and must be positive
+                match String::from_utf8_lossy(bytes).parse::<i64>() {
+                    Ok(n) if n > 0 => n as u64,
+                    Ok(_) => return Ok(RespFrame::error("ERR invalid expire time in 'setex' command")),
                     Err(_) => return Ok(RespFrame::error("ERR value is not an integer or out of range")),
                 }
             }
@@ -3127,8 +3129,9 @@ impl Server {
         
         let millis = match &parts[2] {
             RespFrame::BulkString(Some(bytes)) => {
-                match String::from_utf8_lossy(bytes).parse::<u64>() {
-                    Ok(n) => n,
+                match String::from_utf8_lossy(bytes).parse::<i64>() {
+                    Ok(n) if n > 0 => n as u64,
+                    Ok(_) => return Ok(RespFrame::error("ERR invalid expire time in 'psetex' command")),
                     Err(_) => return Ok(RespFrame::error("ERR value is not an integer or out of range")),
                 }
             }
